@@ -19,4 +19,14 @@ int main(){
   std::cout << r.to_string();
   for (auto it = r.begin(); it != r.end(); ++it) std::cout << (*it).first << " " << (*it).second << "\n";
   try { r.update(99, 1.0); std::cout << "update ok\n"; } catch (std::exception& e) { std::cout << "update of union result threw: " << e.what() << "\n"; }
+  // second observation, same coercer (mark_moving_gadget_coercer copies the unmarked H items in arrival order and never
+  // heapifies them): the result is in estimation mode but its H region is not a min-heap (root 10, child 1), so a later
+  // update() consults the wrong minimum (peek_min() == 10).
+  var_opt_sketch<int> c(2), d(2);
+  c.update(0, 1.0);                                   // exact
+  d.update(10, 1.0); d.update(11, 10.0); d.update(12, 1.0);   // estimation mode: H = {11}, R = one of {10,12}, tau = 2
+  var_opt_union<int> u2(3); u2.update(d); u2.update(c);
+  auto r2 = u2.get_result();
+  std::cout << "second result, items in array order (H first):\n";
+  for (auto it = r2.begin(); it != r2.end(); ++it) std::cout << (*it).first << " " << (*it).second << "\n";
 }
